@@ -28,7 +28,8 @@ void run(string script) {
     do_op(ops[i]);
 }
 
-string sub(string s) { return replace_string(s, ",", ";"); }
+// one nesting level down: "," -> ";", "~" -> ",", "^" -> "~"
+string sub(string s) { return replace_string(replace_string(replace_string(s, ",", ";"), "~", ","), "^", "~"); }
 
 void hook(string h) {
   if (scripts && scripts[h]) run(scripts[h]);
@@ -57,6 +58,13 @@ void co_fire(string id, string script) {
   rec("CO " + me() + " " + id + " t=" + time());
   run(script);
 }
+mapping handles;  // call_out id -> handle
+void cof0(string id, string script) { co_fire(id, script); }
+void cof1(string id, string script) { co_fire(id, script); }
+void cof2(string id, string script) { co_fire(id, script); }
+void cof3(string id, string script) { co_fire(id, script); }
+void cof4(string id, string script) { co_fire(id, script); }
+void cof5(string id, string script) { co_fire(id, script); }
 void got_input(string s, string script) { rec("INPUT " + me() + " " + s); run(script); }
 void got_char(string s, string script) { rec("CHAR " + me() + " " + s); run(script); }
 void set_tag(string t) { tag = t; master()->reg(t, this_object()); }
@@ -149,8 +157,42 @@ void do_op(string op) {
     if (o) o->set_script(a[2], sub(implode(a[3..], " ")));
     break;
   case "co":      // co <id> <delay> <script with , instead of ;>
+    if (!handles) handles = ([ ]);
     n = call_out("co_fire", to_int(a[2]), a[1], sub(implode(a[3..], " ")));
-    rec("COSET " + me() + " " + a[1] + " d=" + a[2] + " h=" + n + " t=" + time());
+    handles[a[1]] = n;
+    rec("COSET " + me() + " " + a[1] + " d=" + a[2] + " h=" + n + " t=" + time() + " fn=x");
+    break;
+  case "con":     // con <id> <delay> <fn 0-5> <script>: call_out by function name cof<fn>
+    if (!handles) handles = ([ ]);
+    n = call_out("cof" + a[3], to_int(a[2]), a[1], sub(implode(a[4..], " ")));
+    handles[a[1]] = n;
+    rec("COSET " + me() + " " + a[1] + " d=" + a[2] + " h=" + n + " t=" + time() + " fn=" + a[3]);
+    break;
+  case "cofp":    // cofp <id> <delay> <script>: call_out with a function pointer
+    if (!handles) handles = ([ ]);
+    n = call_out((: co_fire :), to_int(a[2]), a[1], sub(implode(a[3..], " ")));
+    handles[a[1]] = n;
+    rec("COSET " + me() + " " + a[1] + " d=" + a[2] + " h=" + n + " t=" + time() + " fn=fp");
+    break;
+  case "rch":     // rch <id>: remove_call_out by handle
+    n = (handles && handles[a[1]]) ? remove_call_out(handles[a[1]]) : -99999;
+    rec("RCO " + me() + " " + a[1] + " ret=" + n + " t=" + time());
+    break;
+  case "fch":     // fch <id>: find_call_out by handle
+    n = (handles && handles[a[1]]) ? find_call_out(handles[a[1]]) : -99999;
+    rec("FCO " + me() + " " + a[1] + " ret=" + n + " t=" + time());
+    break;
+  case "rcn":     // rcn <fn>: remove_call_out by name
+    n = remove_call_out("cof" + a[1]);
+    rec("RCN " + me() + " " + a[1] + " ret=" + n + " t=" + time());
+    break;
+  case "fcn":
+    n = find_call_out("cof" + a[1]);
+    rec("FCN " + me() + " " + a[1] + " ret=" + n + " t=" + time());
+    break;
+  case "as":      // as <ob> <script>: run a script as another object
+    o = ob_of(a[1]);
+    if (o) o->run(sub(implode(a[2..], " ")));
     break;
   case "clone":   // clone <file> [tag]
     o = new(a[1]);
